@@ -28,6 +28,7 @@ func Bool(b bool) string {
 
 // Out collects the three artefacts every stream produces.
 type Out struct {
+	Logs []string // optional: "<line index>\t<log line>" for debugging
 	Ops  []string // one line per case, fed to the Lean driver
 	Obs  []string // what the real code did on the same case (same line numbers)
 	Meta Meta
@@ -79,6 +80,9 @@ func (o *Out) Write(dir, name string) error {
 	}
 	if err := os.WriteFile(dir+"/"+name+".goobs", []byte(strings.Join(o.Obs, "\n")+"\n"), 0o644); err != nil {
 		return err
+	}
+	if len(o.Logs) > 0 {
+		os.WriteFile(dir+"/"+name+".log", []byte(strings.Join(o.Logs, "\n")+"\n"), 0o644)
 	}
 	b, _ := json.MarshalIndent(o.Meta, "", " ")
 	return os.WriteFile(dir+"/"+name+".meta.json", b, 0o644)
